@@ -64,6 +64,18 @@ Theorem c15_failed_callback_changes_nothing : forall s f k d pre,
   /\ (forall e, snd (s_delete s f k) = Some e -> fst (s_delete s f k) = s).
 Proof. exact failed_callback_changes_nothing. Qed.
 
+
+(* ---- a callback that hands back a value TOGETHER with its error (FErrV / FNFV) is a failed callback like FErr / FNF:
+   same store, same answer - the value goes nowhere (the handlers test the error before they touch the value); the
+   theorems above quantify over every fault list, these two kinds included ---- *)
+Theorem c15_value_with_error_is_an_error : forall s k d pre,
+  s_load s FErrV k = s_load s FErr k /\ s_load s FNFV k = s_load s FNF k
+  /\ s_add s FErrV k d = s_add s FErr k d /\ s_add s FNFV k d = s_add s FNF k d
+  /\ s_upd s FErrV k d pre = s_upd s FErr k d pre /\ s_upd s FNFV k d pre = s_upd s FNF k d pre
+  /\ s_upsert s FErrV k d pre = s_upsert s FErr k d pre /\ s_upsert s FNFV k d pre = s_upsert s FNF k d pre
+  /\ s_delete s FErrV k = s_delete s FErr k /\ s_delete s FNFV k = s_delete s FNF k.
+Proof. intros. repeat split. Qed.
+
 (* ---- every schedule: callers (incl. the caller-side cache read of DoGet), workers advancing one call at a time,
         Stop; queues of any bound ---- *)
 (* the invariant of C15_Sched.v holds in every reachable state *)
@@ -219,6 +231,18 @@ Example c15_ex_upsert_miss :
   /\ store_at ex_merge_cfg (fst (fst (do_op ex_merge_cfg g0 (OUpsertLoad 4 9) [FOk; FErr]))) 4 = Some 1010009.
 Proof. vm_compute. repeat split. Qed.
 
+
+(* a load that fails and hands back a value next to its error: nothing is cached, the caller gets the error, and the
+   next get consults the store again *)
+Example c15_ex_load_value_with_error :
+  let g0 := ginit ex_merge_cfg in
+  let '(g1, evs, r) := do_op ex_merge_cfg g0 (OGet 4) [FErrV] in
+  r = RErr EInj /\ evs = [EvGet 4 None; EvGet 4 None; EvLoad 4 (SErr EInj)]
+  /\ cache_at ex_merge_cfg g1 4 = None /\ store_at ex_merge_cfg g1 4 = Some 6
+  /\ snd (do_op ex_merge_cfg g1 (OGet 4) []) = ROk (Some 6)
+  /\ snd (do_op ex_merge_cfg g0 (OUpdOrAdd 4 9) [FNFV; FOk]) = RErr EExists.
+Proof. vm_compute. repeat split. Qed.
+
 (* a get whose caller leaves while the load is in progress still caches what it loaded under ITS key *)
 Definition ex_ab_cfg := mkCfg 1 None [] [(1, 5); (2, 9)].
 Example c15_ex_abandoned_get :
@@ -246,6 +270,7 @@ Print Assumptions c15_delete_evicts.
 Print Assumptions c15_add_cached_is_dup.
 Print Assumptions c15_add_cached_dup_any_state.
 Print Assumptions c15_failed_callback_changes_nothing.
+Print Assumptions c15_value_with_error_is_an_error.
 Print Assumptions c15_sched_inv.
 Print Assumptions c15_sched_coherent.
 Print Assumptions c15_sched_coherent_idle.
@@ -274,3 +299,4 @@ Print Assumptions c15_ex_upsert_miss.
 Print Assumptions c15_sched_abandon_keeps_state.
 Print Assumptions c15_ex_abandoned_get.
 Print Assumptions c15_ex_minint_key.
+Print Assumptions c15_ex_load_value_with_error.
